@@ -44,6 +44,12 @@ def parse_op(s):
     if m: return {"Send": {"v": int(m[1])}}
     m = re.match(r"^arc(\d+)\.clone->t(\d+)$", s)
     if m: return {"ArcClone": {"x": int(m[1]), "to": int(m[2])}}
+    m = re.match(r"^arc(\d+)\.drop_unwinding$", s)
+    if m: return {"ArcDropUnwind": {"x": int(m[1])}}
+    m = re.match(r"^track(\d+)\.drop_unwinding$", s)
+    if m: return {"TrackDropUnwind": {"k": int(m[1])}}
+    m = re.match(r"^dealloc_unwinding(\d+)$", s)
+    if m: return {"DeallocUnwind": {"k": int(m[1])}}
     m = re.match(r"^arc(\d+)\.(\S+)$", s)
     if m:
         n = {"drop": "ArcDrop", "strong_count": "ArcCount", "get_mut": "ArcGetMut", "try_unwrap": "ArcTryUnwrap", "into_raw+from_raw": "ArcRawRoundTrip",
